@@ -107,6 +107,18 @@ func checkC02(w *World, r *Report) {
 
 	// the whole liveness skeleton: an API call hangs exactly when one of these pairings breaks
 	livenessAll(w, r, "C02")
+	// a bar that is not announced to the width matrices, a skipped or doubled width exchange,
+	// a terminal frame that never cancels: each of these hangs every later API call
+	fi := w.analyseFlush()
+	ruleSuccessorSwap(w, r, "C02", fi)
+	ruleTerminalCancel(w, r, "C02", fi)
+	ruleAddPushesOrParks(w, r, "C02")
+	ruleSyncArm(w, r, "C02")
+	ruleFormatExchange(w, r, "C02")
+	ruleDecorExchange(w, r, "C02")
+	ruleDecorAlwaysCalled(w, r, "C02")
+	ruleTriggerCancels(w, r, "C02")
+	ruleRenderTerminal(w, r, "C02")
 
 	// R2: getter finality ---------------------------------------------------
 	checkGetterFinality(w, r, "C02.R2")
